@@ -17,11 +17,21 @@ def pull_variants(rng, outs, ins, newcot, repeats=2):
         plans.append(('loss over output 0 only', [True] + [False] * (n - 1)))
     for r in range(repeats):
         plans.append(('pull-back no. %d through the same retained graph' % (len(plans) + 1), [True] * n))
+    # a pull-back whose own computation is recorded (create_graph=True: gradient penalties, second-order optimisers): grad mode is
+    # ENABLED inside the backward pass, the cotangents themselves are plain tensors
+    plans.insert(1, ('the backward pass recorded (create_graph=True)', [True] * n))
+    # cotangents that arrive in another memory layout (the consumer of an output was channels-last / time-major): same values
+    plans.insert(2, ('cotangents in a non-contiguous memory layout', [True] * n))
     for k, (label, used) in enumerate(plans):
         cots = [newcot(o) for o in outs]
+        if k == 2:
+            cots = [c.transpose(1, -1).contiguous().transpose(1, -1) if c.dim() >= 3 else c for c in cots]
         eff = [c if u else torch.zeros_like(c) for c, u in zip(cots, used)]
         last = k == len(plans) - 1
-        if all(used):
+        if k == 1:
+            grads = torch.autograd.grad(outs, ins, cots, allow_unused=True, retain_graph=True, create_graph=True)
+            grads = tuple(None if g is None else g.detach() for g in grads)
+        elif all(used):
             grads = torch.autograd.grad(outs, ins, cots, allow_unused=True, retain_graph=not last)
         else:
             loss = sum((o * c).sum() for o, c, u in zip(outs, cots, used) if u)
